@@ -483,7 +483,7 @@ def traces(specs, workers=14):
                 pass
         todo.append((i, sp, f))
     if todo:
-        with ProcessPoolExecutor(max_workers=workers) as ex:
+        with ProcessPoolExecutor(max_workers=core.safe_workers(workers)) as ex:
             for (i, sp, f), tr in zip(todo, ex.map(run_one, [t[1] for t in todo], chunksize=1)):
                 out[i] = tr
                 if "harness_exc" not in tr:
